@@ -271,6 +271,7 @@ func (b *backend) collectStorageWriteEvents() {
 			copy(evs, events[:cnt])
 			verifhook.Yield("seq.bcast")
 			b.watchChan <- evs
+			verifhook.Yield("seq.sent")
 		}
 	}
 }
